@@ -359,6 +359,18 @@ func (c *c04) hookWithdrawals() {
 			return []sdk.Msg{wd(u, to, l2d, 10), snd(u, o, l2d, 2), wd(u, to, l2d, 11), snd(u, o, l2d, 3)}
 		}, 2},
 	}
+	// hooks that fail after a withdrawal went through: the whole hook leaves nothing behind, the deposit is refunded —
+	// one sequence, one announcement (the refund), exactly the deposit burned
+	kinds = append(kinds,
+		hk{"withdraw,unpayable-send", func(u, o sim.Account, l2d, to string) []sdk.Msg {
+			return []sdk.Msg{wd(u, to, l2d, 40), snd(u, o, l2d, 1<<62)}
+		}, 1},
+		hk{"send,withdraw,unpayable-send", func(u, o sim.Account, l2d, to string) []sdk.Msg {
+			return []sdk.Msg{snd(u, o, l2d, 3), wd(u, to, l2d, 41), snd(u, o, l2d, 1<<62)}
+		}, 1},
+		hk{"withdraw,withdraw-more-than-held", func(u, o sim.Account, l2d, to string) []sdk.Msg {
+			return []sdk.Msg{wd(u, to, l2d, 42), wd(u, to, l2d, 1<<62)}
+		}, 1})
 	for shape := 0; shape < 2; shape++ {
 		tc := newTwoChain(5*time.Second, L2EnvOpts{})
 		l2d := tc.L2.L2Denom("uinit")
@@ -412,7 +424,8 @@ func (c *c04) hookWithdrawals() {
 
 func (c *c04) stringsWorkload(thorough bool) {
 	run := c.run
-	denoms := []string{"abc", "uinit", "ibc/27394FB092D2ECCD56123C74F36E4C1F926001CEADA9CA97EA622B25F41E5EB2", "move/" + strings.Repeat("ab", 30), "a" + strings.Repeat("x", 127), "evm/0xAbC.d_e-f:g"}
+	denoms := []string{"abc", "uinit", "ibc/27394FB092D2ECCD56123C74F36E4C1F926001CEADA9CA97EA622B25F41E5EB2", "move/" + strings.Repeat("ab", 30), "a" + strings.Repeat("x", 127), "evm/0xAbC.d_e-f:g",
+		lookalikeDenom} // a host-chain token whose own name has the shape of a derived denom ("l2/" + 64 hex characters)
 	l1Recipients := []string{sim.NewAccount("r20").String(), sdk.AccAddress(c.rng.Bytes(32)).String(), sdk.AccAddress(c.rng.Bytes(1)).String(),
 		strings.ToUpper(sim.NewAccount("r20upper").String())} // bech32 may be written all-uppercase; L2 records the string verbatim
 	l2BadRecipients := []string{"0x" + strings.Repeat("ab", 20), "INIT1UPPERCASE", "é中🙂", strings.Repeat("y", 1000), "a\tb", "cosmos1", " "}
